@@ -2,25 +2,36 @@
 pub mod anyhow {
     use vstd::prelude::*;
     verus! {
-    #[derive(Debug)]
-    pub struct Error { pub x: u8 }
+    // `origin`: where an error comes from - 1 = an operation on one client's connection, 0 = anything else (set-up, bind, bail!)
+    pub struct Error { pub x: u8, pub origin: Ghost<int> }
+    #[verifier::external]
+    impl std::fmt::Debug for Error { fn fmt(&self, f: &mut std::fmt::Formatter) -> std::fmt::Result { Ok(()) } }
     pub type Result<T> = std::result::Result<T, Error>;
     // bail!("..") expands to `return Err(anyhow!(..))`  (rule T-ANYHOW)
     #[verifier::external_body]
-    pub fn msg(m: &str) -> Error { unimplemented!() }
+    pub fn msg(m: &str) -> (r: Error) ensures r.origin@ == 0 { unimplemented!() }
+    pub uninterp spec fn from_stack(e: crate::openssl::error::ErrorStack) -> Error;
+    pub uninterp spec fn from_io(e: crate::vnet::IoError) -> Error;
+    #[verifier::external_body]
+    pub broadcast proof fn axiom_from_io_origin(e: crate::vnet::IoError)
+        ensures #[trigger] from_io(e).origin@ == e.origin@ {}
+    #[verifier::external_body]
+    pub broadcast proof fn axiom_from_stack_origin(s: crate::openssl::error::ErrorStack)
+        ensures #[trigger] from_stack(s).origin@ == 0 {}
+    pub broadcast group axiom_from_origin { axiom_from_io_origin, axiom_from_stack_origin }
     impl vstd::std_specs::convert::FromSpecImpl<crate::openssl::error::ErrorStack> for Error {
-        open spec fn obeys_from_spec() -> bool { false }
-        open spec fn from_spec(e: crate::openssl::error::ErrorStack) -> Self { arbitrary() }
+        open spec fn obeys_from_spec() -> bool { true }
+        open spec fn from_spec(e: crate::openssl::error::ErrorStack) -> Self { from_stack(e) }
     }
     impl From<crate::openssl::error::ErrorStack> for Error {
-        #[verifier::external_body] fn from(e: crate::openssl::error::ErrorStack) -> Self { unimplemented!() }
+        #[verifier::external_body] fn from(e: crate::openssl::error::ErrorStack) -> (r: Self) ensures r == from_stack(e) { unimplemented!() }
     }
     impl vstd::std_specs::convert::FromSpecImpl<crate::vnet::IoError> for Error {
-        open spec fn obeys_from_spec() -> bool { false }
-        open spec fn from_spec(e: crate::vnet::IoError) -> Self { arbitrary() }
+        open spec fn obeys_from_spec() -> bool { true }
+        open spec fn from_spec(e: crate::vnet::IoError) -> Self { from_io(e) }
     }
     impl From<crate::vnet::IoError> for Error {
-        #[verifier::external_body] fn from(e: crate::vnet::IoError) -> Self { unimplemented!() }
+        #[verifier::external_body] fn from(e: crate::vnet::IoError) -> (r: Self) ensures r == from_io(e) { unimplemented!() }
     }
     }
 }
@@ -121,27 +132,33 @@ pub mod openssl {
 pub mod vnet {
     use vstd::prelude::*;
     verus! {
-    #[derive(Debug)]
-    pub struct IoError { pub x: u8 }
+    pub struct IoError { pub x: u8, pub origin: Ghost<int> }
+    #[verifier::external]
+    impl std::fmt::Debug for IoError { fn fmt(&self, f: &mut std::fmt::Formatter) -> std::fmt::Result { Ok(()) } }
     pub struct Stream { pub x: u8 }
     pub struct SocketAddr { pub x: u8 }
     impl Stream {
         // fails once the peer has gone away
-        #[verifier::external_body] pub fn peer_addr(&self) -> Result<SocketAddr, IoError> { unimplemented!() }
-        #[verifier::external_body] pub fn local_addr(&self) -> Result<SocketAddr, IoError> { unimplemented!() }
-        #[verifier::external_body] pub fn set_read_timeout(&self, d: Option<std::time::Duration>) -> Result<(), IoError> { unimplemented!() }
-        #[verifier::external_body] pub fn set_write_timeout(&self, d: Option<std::time::Duration>) -> Result<(), IoError> { unimplemented!() }
+        #[verifier::external_body] pub fn peer_addr(&self) -> (r: Result<SocketAddr, IoError>) ensures r matches Err(e) ==> e.origin@ == 1 { unimplemented!() }
+        #[verifier::external_body] pub fn local_addr(&self) -> (r: Result<SocketAddr, IoError>) ensures r matches Err(e) ==> e.origin@ == 1 { unimplemented!() }
+        #[verifier::external_body] pub fn set_read_timeout(&self, d: Option<std::time::Duration>) -> (r: Result<(), IoError>) ensures r matches Err(e) ==> e.origin@ == 1 { unimplemented!() }
+        #[verifier::external_body] pub fn set_write_timeout(&self, d: Option<std::time::Duration>) -> (r: Result<(), IoError>) ensures r matches Err(e) ==> e.origin@ == 1 { unimplemented!() }
+        #[verifier::external_body] pub fn set_nodelay(&self, b: bool) -> (r: Result<(), IoError>) ensures r matches Err(e) ==> e.origin@ == 1 { unimplemented!() }
+        #[verifier::external_body] pub fn set_nonblocking(&self, b: bool) -> (r: Result<(), IoError>) ensures r matches Err(e) ==> e.origin@ == 1 { unimplemented!() }
     }
     pub struct TcpListener { pub x: u8 }
     pub struct UnixListener { pub x: u8 }
     // `incoming()` is modelled as an arbitrary finite sequence of connection attempts (every finite prefix of the real, endless one)
     impl TcpListener {
-        #[verifier::external_body] pub fn bind(addr: &str) -> Result<TcpListener, IoError> { unimplemented!() }
-        #[verifier::external_body] pub fn incoming(&self) -> Vec<Result<Stream, IoError>> { unimplemented!() }
+        #[verifier::external_body] pub fn bind(addr: &str) -> (r: Result<TcpListener, IoError>) ensures r matches Err(e) ==> e.origin@ == 0 { unimplemented!() }
+        // a failed accept(2) is a matter of that one connection attempt
+        #[verifier::external_body] pub fn incoming(&self) -> (r: Vec<Result<Stream, IoError>>)
+            ensures forall|i: int| 0 <= i < r@.len() ==> (#[trigger] r@[i] matches Err(e) ==> e.origin@ == 1) { unimplemented!() }
     }
     impl UnixListener {
-        #[verifier::external_body] pub fn bind(addr: &str) -> Result<UnixListener, IoError> { unimplemented!() }
-        #[verifier::external_body] pub fn incoming(&self) -> Vec<Result<Stream, IoError>> { unimplemented!() }
+        #[verifier::external_body] pub fn bind(addr: &str) -> (r: Result<UnixListener, IoError>) ensures r matches Err(e) ==> e.origin@ == 0 { unimplemented!() }
+        #[verifier::external_body] pub fn incoming(&self) -> (r: Vec<Result<Stream, IoError>>)
+            ensures forall|i: int| 0 <= i < r@.len() ==> (#[trigger] r@[i] matches Err(e) ==> e.origin@ == 1) { unimplemented!() }
     }
     // std::thread::spawn: the closure runs, so its body's obligations are checked with no assumption on its inputs
     #[verifier::external_body]
